@@ -77,7 +77,8 @@ pub enum Spec {
   },
   /// `ConcatSource`; `how`: 0 = `new` over boxed children (nested concats stay
   /// unflattened), 1 = `add` one by one with nested concats passed typed
-  /// (flattened), 2 = `add` one by one with nested concats boxed first.
+  /// (flattened), 2 = `add` one by one with nested concats boxed first, 3 = `new` over typed
+  /// ConcatSource items (flattened by `new`) when all children are concats, else like 0.
   Concat { how: u8, children: Vec<Spec> },
   /// `ReplaceSource::new(inner)` followed by the replacement calls in order
   Replace { inner: Box<Spec>, repls: Vec<Repl> },
